@@ -2,6 +2,7 @@ import TemplVerif.Drive.Common
 import TemplVerif.Drive.C17
 import TemplVerif.Drive.C04
 import TemplVerif.Drive.C01
+import TemplVerif.Drive.C03
 import Std.Data.HashMap
 open TemplVerif TemplVerif.Drive
 
@@ -10,6 +11,7 @@ def dispatch (ws : List String) : Verdict :=
   | "C17" :: rest => C17.handle rest
   | "C04" :: rest => C04.handle rest
   | "C01" :: rest => C01.handle rest
+  | "C03" :: rest => C03.handle rest
   | _ => .badOp
 
 structure Stats where
